@@ -213,6 +213,7 @@ static std::string step(const std::string& line) {
       if (w[1] == "b") e = x->b(I);
       else if (w[1] == "bl") e = x->bl(I);
       else if (w[1] == "bcond") e = x->b_eq(I);
+      else if (w[1] == "bc") e = x->bc_eq(I);
       else if (w[1] == "cbz") e = x->cbz(a64::x1, I);
       else if (w[1] == "tbz") e = x->tbz(a64::w2, 3, I);
       else if (w[1] == "adr") e = x->adr(a64::x3, I);
@@ -225,6 +226,7 @@ static std::string step(const std::string& line) {
       if (w[1] == "b") e = x->b(L);
       else if (w[1] == "bl") e = x->bl(L);
       else if (w[1] == "bcond") e = x->b_eq(L);
+      else if (w[1] == "bc") e = x->bc_eq(L);
       else if (w[1] == "cbz") e = x->cbz(a64::x1, L);
       else if (w[1] == "tbz") e = x->tbz(a64::w2, 3, L);
       else if (w[1] == "adr") e = x->adr(a64::x3, L);
